@@ -24,6 +24,22 @@ DEMO[C12]="variables_c12_demo_test.go:lang"; RUN[C12]="TestC12Demo"
 DEMO[C13]="c13_demo_test.go:lang/types"; RUN[C13]="TestC13Demo"
 DEMO[C18]="demo_c18_test.go:builtins/core/mkarray"; RUN[C18]="TestDemoC18"
 DEMO[C38]="c38_demo_test.go:builtins/core/lists"; RUN[C38]="TestC38"
+DEMO[C02]="c02_demo_test.go:builtins/pipes/streams"; RUN[C02]="TestC02"
+DEMO[C14]="c14_demo_test.go:builtins/types/csv"; RUN[C14]="TestC14CsvRoundTrip"
+DEMO[C15]="c15_demo_test.go:builtins/core/structs"; RUN[C15]="TestC15"
+DEMO[C21]="exec_exitstatus_demo_test.go:lang"; RUN[C21]="TestC21"
+DEMO[C22]="process_alias_once_demo_test.go:lang"; RUN[C22]="TestC22"
+DEMO[C25]="c25_demo_test.go:builtins/core/config"; RUN[C25]="TestC25"
+DEMO[C26]="namedpipes_unique_demo_test.go:lang/pipes"; RUN[C26]="TestNamedPipeCreateSameNameOverlapping"
+DEMO[C28]="c28_demo_test.go:lang"; RUN[C28]="TestC28"
+DEMO[C30]="demo_c30_test.go:utils/cache"; RUN[C30]="TestC30"
+DEMO[C31]="c31_demo_test.go:lang"; RUN[C31]="TestC31Demo"
+DEMO[C33]="redirection_c33_demo_test.go:lang"; RUN[C33]="TestC33RedirectionCombinations"
+DEMO[C34]="seed_c34_demo_test.go:utils/parser"; RUN[C34]="TestSeedC34"
+DEMO[C35]="c35_demo_test.go:builtins/core/escape"; RUN[C35]="TestC35EscapeRoundTrip"
+DEMO[C36]="c36_seed_demo_test.go:lang/expressions"; RUN[C36]="TestC36SeedDemo"
+DEMO[C39]="break_c39_demo_test.go:builtins/core/structs"; RUN[C39]="TestC39"
+DEMO[C19]="c19_demo_test.go:builtins/core/index"; RUN[C19]="TestC19"
 for id in "$@"; do
   f=${DEMO[$id]%%:*}; d=${DEMO[$id]##*:}
   cd $W; git checkout -q -- .; git clean -fdq
